@@ -74,6 +74,11 @@ CHECKS = {
     text="All modules emitted for the 50 corpus configurations and for generated libraries (every Fortran-capable shape, language c and c++, F_CFI off and on; random option/prefix/namespace combinations in the thorough tier): ~900 interfaces / ~1400 arguments / ~55 derived types / ~90 constants per quick run. Held = every binding label is defined by the objects, argument counts and order agree, every argument/result/field has the same interoperability class and passing mode, constants are equal.",
     note="Trusted: gfortran's and clang's descriptions; x86-64 SysV sizes; F2003 section 15 rules (signedness ignored, void*/C_PTR ~ any object pointer, procedure dummy ~ function pointer). Interfaces gfortran cannot print (TYPE(*), some procedure dummies: counted) and libraries without sources are reported as unreachable. Run-time corroboration comes from C01's calls.",
     design="DESIGN.md §2 C04"),
+ "C08": dict(
+    technique="real Shroud runs on generated overload / default / template / fortran_generic / class / namespace combinations; emitted names read back (nm on compiled wrapper objects, prototypes in generated headers, module procedures and generic interfaces in the Fortran module, PyMethodDef / luaL_Reg tables) and compared with an independent naming model written from docs/reference.rst",
+    text="Exhaustive product of overload-set size 1..3 x trailing defaults 0..2 x suffix policy {none, function_suffix, default_arg_suffix} x {plain, 2 template instantiations} x {no fortran_generic, 2 entries with / without explicit suffix} x {free function, class method} (6 C++ names per library; libraries vary namespace, C_prefix and wrapper set), plus random mixes in the thorough tier: every callable signature must have exactly one external C symbol with the predicted name bound to the predicted arity, exactly one Fortran specific, generic interfaces / type-bound generics listing exactly the specifics of their C++ name, and no duplicate symbol, module procedure, PyMethodDef or luaL_Reg entry.",
+    note="Trusted: naming model (vf/libgen/libs.py:assign_names), nm, regex readers of the Fortran module. C++ names are lower case (un_camel = identity). Four known findings (template overload interactions) are listed.",
+    design="DESIGN.md §2 C08"),
 }
 
 NOT_APPLICABLE = []
